@@ -320,20 +320,20 @@ func RunConcurrent(c *Case) *Result {
 
 // Dispatch is the reference routing decision for one request.
 type Dispatch struct {
-	WellFormed bool
-	Type       string
-	RName      string
-	Method     string
-	Handler    int    // index of the handler spec selected by routing, -1 if none
-	Marker     string // marker of the handler function that must run, "" if none can be invoked
-	Kind       string // access/get/call/new/auth
+	WellFormed     bool
+	Type           string
+	RName          string
+	Method         string
+	Handler        int      // index of the handler spec selected by routing, -1 if none
+	Marker         string   // marker of the handler function that must run, "" if none can be invoked
+	Kind           string   // access/get/call/new/auth
 	NoHandlerCodes []string // acceptable error codes when nothing can be invoked
-	Silent     bool   // access request on a pattern without access handler: no response expected
-	Params     map[string]string
-	Group      string
-	PayloadOK  bool // payload empty or a JSON object that decodes into the request structure
-	PayloadObj bool
-	Probe      bool // the request targets the harness's own probe resource
+	Silent         bool     // access request on a pattern without access handler: no response expected
+	Params         map[string]string
+	Group          string
+	PayloadOK      bool // payload empty or a JSON object that decodes into the request structure
+	PayloadObj     bool
+	Probe          bool // the request targets the harness's own probe resource
 }
 
 func hasStr(a []string, s string) bool {
